@@ -4,4 +4,4 @@ Require Extraction.
 Require Import ExtrOcamlBasic.
 From LH Require Import Base.Bytes Base.Res Model.Number Spec.LuaNumeral.
 Extraction "c03nmodel.ml" extract_anchor classify_number spec_value num_clean to_lower trim_space
-  dev_short_junk dev_hex_one_junk dev_hex_cut.
+  dev_short_junk dev_hex_one_junk dev_hex_cut re_hex_float parse_hex_float.
